@@ -139,6 +139,20 @@ def run(ck):
             ck.ob("COV", g.path, "hash_points-4", arr is not None and len(arr) == 4, "prover hashes 4 points like the verifier", g.loc(hp[0][0]))
         o = g.origins(0, deep=True)
         ck.ob("DEFUSE", g.path, "nonce-deterministic", any(a[0] == "call" and a[1].endswith("nonce_generation") for a in o), "the nonce comes from nonce_generation (RFC 8032 style), not from an RNG", g.loc())
+    # a VRF public key must not be a point of small order (for such a key a proof with Gamma = identity verifies for every
+    # message): decoding a key refuses all eight torsion points, not just the identity
+    for pth in [x for x in crate("rs", CB).paths() if re.search(r"ecvrf::public::PublicKey as concordium_base::common::serialize::Deserial>::deserial$|ecvrf::public::PublicKey::verify_key$", x)]:
+        kf = Fn(crate("rs", CB).get(pth))
+        so = kf.calls(r"is_small_order$")
+        weaker = kf.calls(r"is_identity$|IsIdentity::is_identity$")
+        ok = len(so) >= 1 and not weaker
+        det = "the decoded point is tested with is_small_order"
+        if ok and kf.ret_kind() != "bool":
+            r = rules.enforcement(kf, so[0][0], extra_fail=("bool", 1))
+            ok = rules.enforced_ok(r)
+            det += " and a small-order point is refused (%s)" % r["status"]
+        ck.ob("CALLEE", pth, "small-order-key-refused", ok, det if ok else
+              "the key's point is not tested with is_small_order (found: %s): points of order 2, 4 or 8 are accepted as keys" % [t["f"]["name"] for (_, t) in so + weaker], kf.loc())
     h = getfn(ck, "rs", CB, V + "public::PublicKey::hash_to_curve")
     if h:
         sites = h.calls(r"is_small_order$")
